@@ -553,6 +553,220 @@ theorem maskKey_forms_independent {o cl : Str} (ho : OpenForm o) (hc : CloseForm
       · rw [← List.append_assoc b k1, lastClose_append_closeForm hc]; simp
       · rw [← List.append_assoc b k2, lastClose_append_closeForm hc]; simp
 
+/-! ### truncated answers: no closing tag -/
+
+theorem splitAtGt_none : ∀ s : Str, '>' ∉ s → splitAtGt s = none := by
+  intro s
+  induction s with
+  | nil => intro _; rfl
+  | cons c cs ih =>
+    intro h
+    have hc : c ≠ '>' := fun e => h (e ▸ List.mem_cons_self)
+    have hcs : '>' ∉ cs := fun e => h (List.mem_cons_of_mem _ e)
+    simp only [splitAtGt, hc, if_false, ih hcs]
+
+theorem mem_takeWhile_pred {q : Char → Bool} : ∀ {l : Str} {c : Char}, c ∈ l.takeWhile q → q c = true := by
+  intro l
+  induction l with
+  | nil => intro c h; cases h
+  | cons d ds ih =>
+    intro c h
+    simp only [List.takeWhile] at h
+    cases hq : q d with
+    | false => simp [hq] at h
+    | true =>
+      simp only [hq, List.mem_cons] at h
+      rcases h with h | h
+      · exact h ▸ hq
+      · exact ih h
+
+theorem keyCloseTail_noLt {r : Str} (h : keyCloseTail r = true) : '<' ∉ r := by
+  unfold keyCloseTail at h
+  split at h
+  · rename_i w
+    simp only [List.all_eq_true] at h
+    intro hm
+    simp only [List.mem_cons] at hm
+    rcases hm with hm | hm | hm | hm
+    · cases hm
+    · cases hm
+    · cases hm
+    · have := h _ hm
+      revert this; decide
+  · cases h
+
+theorem afterNs_noLt {r x : Str} (h : afterNs r = some x) (hx : '<' ∉ x) : '<' ∉ r := by
+  unfold afterNs at h
+  have hsplit := List.takeWhile_append_dropWhile (p := nameCh) (l := r)
+  split at h
+  · rename_i r'' heq
+    by_cases he : (List.takeWhile nameCh r).isEmpty = true
+    · simp [he] at h
+    · simp only [he, Bool.false_eq_true, if_false, Option.some.injEq] at h
+      subst h
+      intro hm
+      rw [← hsplit, heq] at hm
+      rcases List.mem_append.mp hm with hm | hm
+      · have := mem_takeWhile_pred hm
+        revert this; decide
+      · simp only [List.mem_cons] at hm
+        rcases hm with hm | hm
+        · cases hm
+        · exact hx hm
+  · cases h
+
+/-- No valid closing tag contains a second `<`. -/
+theorem validClose_noLt {t : Str} (h : validClose t = true) : '<' ∉ t.tail := by
+  unfold validClose at h
+  split at h
+  · rename_i r
+    simp only [Bool.or_eq_true] at h
+    simp only [List.tail_cons]
+    have hr : '<' ∉ r := by
+      rcases h with h | h
+      · cases ha : afterNs r with
+        | none => simp [ha] at h
+        | some x =>
+          simp only [ha] at h
+          exact afterNs_noLt ha (keyCloseTail_noLt h)
+      · exact keyCloseTail_noLt h
+    intro hm
+    simp only [List.mem_cons] at hm
+    rcases hm with hm | hm
+    · cases hm
+    · exact hr hm
+  · cases h
+
+/-- Appending `<key>` creates no closing tag. -/
+theorem lastClose_append_open (x : Str) : lastClose (x ++ litOpen) = (lastClose x).map (· ++ litOpen) := by
+  induction x with
+  | nil => decide
+  | cons c cs ih =>
+    simp only [List.cons_append, lastClose, ih]
+    cases hl : lastClose cs with
+    | some r => simp
+    | none =>
+      simp only [Option.map_none]
+      by_cases hgt : '>' ∈ c :: cs
+      · have := tag?_append validClose (c :: cs) litOpen hgt
+        simpa using this
+      · have h1 : splitAtGt (c :: cs) = none := splitAtGt_none _ hgt
+        have hno : '>' ∉ (c :: cs) ++ ['<', 'k', 'e', 'y'] := by
+          intro hm
+          rcases List.mem_append.mp hm with hm | hm
+          · exact hgt hm
+          · revert hm; decide
+        have h2 := splitAtGt_attrs ((c :: cs) ++ ['<', 'k', 'e', 'y']) [] hno
+        have h3 : validClose ((c :: cs) ++ ['<', 'k', 'e', 'y']) = false := by
+          cases hv : validClose ((c :: cs) ++ ['<', 'k', 'e', 'y']) with
+          | false => rfl
+          | true =>
+            have := validClose_noLt hv
+            exact absurd (by simp) this
+        have e : c :: (cs ++ litOpen) = ((c :: cs) ++ ['<', 'k', 'e', 'y']) ++ ['>'] := by simp [litOpen]
+        have h3' : validClose (c :: (cs ++ ['<', 'k', 'e', 'y'])) = false := h3
+        simp only [tag?, h1]
+        rw [e, h2]
+        simp [h3']
+
+/-- Behind a text that ends in `>` no closing tag can begin before and end inside what follows. -/
+theorem lastClose_append_endsGt (k : Str) (hk : lastClose k = none) : ∀ b' : Str,
+    lastClose (b' ++ '>' :: k) = (lastClose (b' ++ ['>'])).map (· ++ k) := by
+  intro b'
+  induction b' with
+  | nil => simp [lastClose, hk, tag?, splitAtGt, validClose]
+  | cons c cs ih =>
+    simp only [List.cons_append, lastClose, ih]
+    cases hl : lastClose (cs ++ ['>']) with
+    | some r => simp
+    | none =>
+      simp only [Option.map_none]
+      have hgt : '>' ∈ c :: (cs ++ ['>']) := by simp
+      have := tag?_append validClose (c :: (cs ++ ['>'])) k hgt
+      simpa using this
+
+theorem splitAtGt_open_rest : ∀ (p t b : Str), splitAtGt (p ++ litOpen) = some (t, b) →
+    b = [] ∨ ∃ p2, b = p2 ++ litOpen ∧ p2.length < p.length := by
+  intro p
+  induction p with
+  | nil =>
+    intro t b h
+    simp [litOpen, splitAtGt] at h
+    exact Or.inl h.2
+  | cons c cs ih =>
+    intro t b h
+    simp only [List.cons_append, splitAtGt] at h
+    by_cases hc : c = '>'
+    · simp only [hc, if_true, Option.some.injEq, Prod.mk.injEq] at h
+      exact Or.inr ⟨cs, h.2.symm, by simp⟩
+    · simp only [hc, if_false] at h
+      cases hs : splitAtGt (cs ++ litOpen) with
+      | none => simp [hs] at h
+      | some q =>
+        obtain ⟨t', b'⟩ := q
+        simp only [hs, Option.some.injEq, Prod.mk.injEq] at h
+        rcases ih t' b' hs with h0 | ⟨p2, hp2, hlen⟩
+        · exact Or.inl (h.2 ▸ h0)
+        · exact Or.inr ⟨p2, h.2 ▸ hp2, by simp; omega⟩
+
+/-- **Truncated answer**: without a closing tag behind it, everything after `<key>` is masked — the logged
+text is the same for all continuations that contain no closing tag of `key` themselves. -/
+theorem maskKey_truncated_independent (k1 k2 pre : Str) (h1 : lastClose k1 = none) (h2 : lastClose k2 = none) :
+    maskKey (pre ++ (litOpen ++ k1)) = maskKey (pre ++ (litOpen ++ k2)) := by
+  have hstep : ∀ k : Str, lastClose k = none → keyStep (litOpen ++ k) = some (litOpen ++ xxx ++ litClose, []) := by
+    intro k hk
+    unfold keyStep
+    rw [tag?_open_lit]
+    simp [hk]
+  unfold maskKey
+  apply replaceAll_independent keyStep_decr
+  · simp [litOpen]
+  · simp [litOpen]
+  · exact ⟨_, _, hstep k1 h1, hstep k2 h2⟩
+  · intro p hp
+    have hgt : '>' ∈ p ++ litOpen := by simp [litOpen]
+    have key : ∀ k : Str, tag? validOpen (p ++ (litOpen ++ k)) = (tag? validOpen (p ++ litOpen)).map (· ++ k) := by
+      intro k
+      rw [← List.append_assoc]
+      exact tag?_append _ _ _ hgt
+    unfold keyStep
+    rw [key k1, key k2]
+    cases hb : tag? validOpen (p ++ litOpen) with
+    | none => left; simp
+    | some b =>
+      simp only [Option.map_some]
+      have hb' : b = [] ∨ ∃ p2, b = p2 ++ litOpen ∧ p2.length < p.length := by
+        unfold tag? at hb
+        cases hs : splitAtGt (p ++ litOpen) with
+        | none => simp [hs] at hb
+        | some q =>
+          obtain ⟨t, b0⟩ := q
+          simp only [hs] at hb
+          by_cases hv : validOpen t = true
+          · simp only [hv, if_true, Option.some.injEq] at hb
+            subst hb
+            exact splitAtGt_open_rest p t _ hs
+          · simp [hv] at hb
+      rcases hb' with h0 | ⟨p2, hp2, hlen⟩
+      · right; left
+        subst h0
+        exact ⟨litOpen ++ xxx ++ litClose, [], by simp [h1], by simp [h2]⟩
+      · subst hp2
+        have hrest : ∀ k : Str, lastClose k = none →
+            lastClose (p2 ++ litOpen ++ k) = (lastClose p2).map (· ++ (litOpen ++ k)) := by
+          intro k hk
+          have e : p2 ++ litOpen ++ k = (p2 ++ ['<', 'k', 'e', 'y']) ++ '>' :: k := by simp [litOpen]
+          have e2 : (p2 ++ ['<', 'k', 'e', 'y']) ++ ['>'] = p2 ++ litOpen := by simp [litOpen]
+          rw [e, lastClose_append_endsGt k hk, e2, lastClose_append_open]
+          cases lastClose p2 <;> simp
+        rw [hrest k1 h1, hrest k2 h2]
+        cases hq : lastClose p2 with
+        | none => right; left; exact ⟨litOpen ++ xxx ++ litClose, [], by simp, by simp⟩
+        | some q =>
+          right; right
+          have := lastClose_length _ _ hq
+          exact ⟨litOpen ++ xxx ++ litClose, q, by omega, by simp, by simp⟩
+
 /-! ## 4. escaping -/
 
 /-- Bytes that `url.QueryEscape` can produce. -/
